@@ -114,6 +114,9 @@ def gen_history(rng, k):
     for _ in range(rng.randint(5, 9)):
         r = rng.random()
         req = rng.sample(names, min(len(names), rng.choice([1, 1, 2, 3])))
+        if rng.random() < 0.25:
+            req = req + [rng.choice(req)]          # the same target named twice (or under both spellings) on one command line
+            rng.shuffle(req)
         if r < 0.45:
             steps.append({"graph": g, "req": req, "clean": False, "invalid": False, "edit": []})
         elif r < 0.55:
